@@ -4,27 +4,52 @@ from ..common import short, awaits
 from .. import pathq
 
 
-def accept_tasks(f):
-    """coroutine bodies that call `<listener>.accept()`: the spawned accept loops (one per transport)"""
-    out = []
-    for b in f.bodies:
-        if not b.j.get("coroutine_kind"):
+def _is_accept(fn):
+    return bool(fn) and fn["name"] == "accept" and ("Listener" in fn["path"] or "Listener" in str(fn.get("resolved")))
+
+
+_accepting_memo = {}
+
+
+def accepting_helpers(f):
+    """paths of crate-private async helpers (and of their coroutine bodies) that perform `<listener>.accept()`: polling one of them is
+    polling accept()"""
+    if id(f) in _accepting_memo:
+        return _accepting_memo[id(f)]
+    out = set()
+    for path, sig in f.fns.items():
+        if not sig.get("is_async") or sig.get("vis", "").startswith("Public") or "::test" in path:
             continue
-        if any(fn and fn["name"] == "accept" and ("Listener" in fn["path"] or "Listener" in str(fn.get("resolved"))) for bb, t, fn in b.calls()):
-            out.append(b)
+        b = f.body(path)
+        if b is None or b.j.get("impl_trait"):
+            continue
+        kids = [k for k in f.children(b) if k.j.get("coroutine_kind") and k.j.get("parent") == path]
+        # a helper that accepts one connection and returns it - not one that spawns the loop
+        if any(fn and fn["name"] == "spawn" for k in [b] + kids for bb, t, fn in k.calls()):
+            continue
+        if any(_is_accept(fn) for k in kids for bb, t, fn in k.calls()):
+            out.add(path)
+            out.update(k.path for k in kids)
+    _accepting_memo[id(f)] = out
+    return out
+
+
+def accept_tasks(f):
+    """The spawned accept loops (one per transport): coroutine bodies that call `<listener>.accept()` themselves or through a private
+    helper (a shared loop that is handed `listener.accept()` as a closure, a helper that accepts one connection)."""
+    helpers = accepting_helpers(f)
+    out = [b for b in f.bodies if b.j.get("coroutine_kind") and b.path not in helpers and any(_is_accept(fn) for bb, t, fn in b.calls())]
     if out:
         return out
-    # the loop may live in a private async helper shared by the transports, with `listener.accept()` handed in as a closure:
     # then the accept task is the spawned coroutine whose scope (helpers and closures looked through) reaches accept()
     for b in f.bodies:
-        if not b.j.get("coroutine_kind") or "::test" in b.path:
+        if not b.j.get("coroutine_kind") or "::test" in b.path or b.path in helpers:
             continue
         parent = f.body(b.j.get("parent")) if b.j.get("parent") else None
         if parent is None or not parent.j.get("coroutine_kind"):
             continue
         spawned = any(fn and fn["name"] == "spawn" for bb, t, fn in parent.calls())
-        if spawned and any(fn and fn["name"] == "accept" and ("Listener" in fn["path"] or "Listener" in str(fn.get("resolved")))
-                           for k in pathq.scope(f, b, allow_async=True) for bb, t, fn in k.calls()):
+        if spawned and any(_is_accept(fn) for k in pathq.scope(f, b, allow_async=True) for bb, t, fn in k.calls()):
             out.append(b)
     return out
 
@@ -37,15 +62,17 @@ def select_arm(e):
     return None
 
 
-def arm_feeds(p):
+def arm_feeds(p, f=None):
     """select arm index -> 'accept' | 'stop' from the capture order of the select closure on this path"""
     out = {}
+    helpers = accepting_helpers(f) if f is not None else set()
     for i, ev in pathq.calls(p, "poll_fn"):
         clo = ev.args[0]
         if clo[0] != "agg":
             continue
         for k, op in enumerate(clo[4]):
-            if pathq.mentions_call(op, lambda y: short(y[1]) == "accept") is not None:
+            if pathq.mentions_call(op, lambda y: short(y[1]) == "accept" or y[1] in helpers) is not None or \
+                    any(isinstance(x, tuple) and len(x) > 2 and x[0] == "agg" and x[1] == "coroutine" and x[2] in helpers for x in walk_expr(op)):
                 out[k] = "accept"
             elif pathq.mentions_call(op, lambda y: short(y[1]) == "fuse") is not None:
                 out[k] = "stop"
@@ -90,7 +117,7 @@ def check_accept_loop(f, rep, rule, b, key_prefix):
         if p.end != "return":
             continue
         nret += 1
-        feeds = arm_feeds(p)
+        feeds = arm_feeds(p, f)
         fired = [feeds.get(c[1]) for (e, c, _, _) in p.conds
                  if e[0] == "discr" and c[0] == "eq" and e[1][0] == "field" and e[1][1][0] == "downcast" and e[1][1][2] == "Ready" and
                  pathq.mentions_call(e[1], lambda y: short(y[1]) == "poll" and "PollFn" in y[1]) is not None]
